@@ -1,5 +1,6 @@
 """Claimed level per property (text for MANIFEST.json)."""
 HOOK_COMMITS = ["f85b327"]
+FIX_COMMITS = ["1fe7dcd", "1179cbc", "91f131a"]
 TB = ("Trusted: Coq 8.16.1 kernel (vm_compute only for finite sweeps/witnesses), ExtrOcamlBasic extraction + OCaml driver and the Rust harness "
       "(correspondence only, bounded by its generators). ")
 LEVELS = {
@@ -16,5 +17,15 @@ LEVELS = {
                 "characterised known-finding class K1 (witness (7,4,7) proved); model of get_marker_versions tied to the code by exhaustive "
                 "and structured 64-bit correspondence; the property is also evaluated on the implementation's own outputs.",
         "note": TB + "The theorems are about marker arithmetic as the property states; that one root cannot show a label both present and absent is C05.",
+    },
+    "C05": {
+        "text": "Machine-checked proof, for BOTH real hash configurations and for ALL candidate proofs (arbitrary sibling lists, anchors, children, "
+                "hashes), that against the root hash of a well-formed tree a verifying non-membership proof never concerns a leaf label and a "
+                "verifying membership proof names a real node with its real value - up to an explicit hash-collision (or zero-digest preimage) "
+                "event; plus completeness of the honest membership prover.  The tree/verifier/prover model is tied to the code bit for bit "
+                "(Gallina BLAKE3) on real Azks trees with honest and adversarial proofs; three genuine defects found this way were repaired "
+                "(fix: commits) before the theorems could be proved.",
+        "note": TB + "Hash assumptions appear only as the disjuncts Collision H / ZeroPre H and the 32-byte output length. Completeness of the "
+                "non-membership prover is decided by correspondence + oracle (every related non-member label on every generated tree), not yet by a theorem.",
     },
 }
